@@ -45,9 +45,10 @@ ASSUMPTIONS = [
     "injected UOD commands use names the method never uses (Other, Mode), because same-name / overlapping commands "
     "cancel each other by design (C11)",
     "an injected Block competes for the block lock with method blocks by design: the bound is not judged for Block "
-    "snippets while a method block holds the lock, and method-line timing is then not compared; the untimed method-line "
-    "comparison is decided under contention only if a stall cannot change which lines run (constant FT01, no Simulate "
-    "in the method, every method Block of the reference run ends)",
+    "snippets while a method block holds the lock, and method-line timing is then not compared; an injected Block also "
+    "restarts Block Time (an injected Watch/Alarm body, while it runs, Scope Time), the clock of the method's "
+    "threshold lines, which holds up the main path of a method with thresholds; in both cases the untimed method-line comparison is decided only if a stall cannot change which "
+    "lines run (constant FT01, no Simulate in the method, every method Block of the reference run ends)",
     "block lock: once an injected Block holds the (exclusive) lock nothing competes with its snippet, so it must "
     "release the lock within the snippet's bound K counted from the acquisition, contention before or not; read from "
     "lock_acquired transitions of the injected Block objects, not from the interpreter's list of locked blocks",
@@ -575,6 +576,18 @@ def stall_insensitive(text: str, traj, ref) -> bool:
         (not ref["locked_at"] or ref["locked_at"][-1] == 0)
 
 
+def method_has_threshold(text: str) -> bool:
+    """A method line with a threshold > 0 reads Block Time while any Block is active - also an injected one, which
+    restarts that clock: the line (and the main path behind it) is held up for as long as the injected Block runs."""
+    return any(re.match(r"\s*(?!0\s)\d+(\.\d+)?\s+\S", ln) for ln in text.split("\n"))
+
+
+def shifts_clocks(sn) -> bool:
+    """An injected Block restarts Block Time; an injected Watch/Alarm body is a scope of its own while it runs, which
+    restarts Scope Time, the clock of threshold lines outside Blocks."""
+    return has_block(sn) or any(f.startswith(("watch_", "alarm_")) for f in sn.get("feat", ()))
+
+
 def injected_ids_shared(rec) -> bool:
     """Causal shape of 'injected snippets are numbered independently': two different node objects with the same
     (negative) injected node id changed state in one run."""
@@ -843,7 +856,8 @@ def check_multi(case, pt, ref, ref_part, method_ids, H, res: Result, viol):
     else:
         res.count("differential_timing_differs")
         res.count("differential_timing_differs_multi")
-        amb = any_contention or (have_block and ref["method_has_block"])
+        amb = any_contention or (have_block and ref["method_has_block"]) or \
+            (any(shifts_clocks(sn) for sn in sns) and method_has_threshold(text))
         if amb and not stall_insensitive(text, traj, ref):
             res.count("differential_ambiguous_block_lock_contention")
         else:
@@ -1059,7 +1073,8 @@ def check_case(case: dict, res: Result):
             else:
                 res.count("differential_timing_differs")
                 res.count("differential_timing_differs_kind_" + sn["kind"])
-                amb = lock_contention or (has_block(sn) and ref["method_has_block"])
+                amb = lock_contention or (has_block(sn) and ref["method_has_block"]) or \
+                    (shifts_clocks(sn) and method_has_threshold(text))
                 if amb and not stall_insensitive(text, traj, ref):
                     res.count("differential_ambiguous_block_lock_contention")
                 else:
